@@ -15,6 +15,11 @@ import H2V.Lemmas.ConnNoPanicPFuel
   classification of every `assert!` / `unwrap` / `expect` / `unreachable!` in
   H2V/Lemmas/ConnNoPanicPNOTES.md.
 
+  THE GENERAL THEOREMS are at the end of the file: `no_panic_in_any_reachable_connection_partial` (every reachable `Conn`:
+  `panicked = none`, or one of the model's own out-of-fuel markers) and, at the stream layer,
+  `no_panic_stream_layer_with_write_path_partial`; before them the per-function theorems and the stages
+  (`Reach` → handles → invariants of the other families → no-push class → accept path → write path → connection).
+
   The model records the first `assert!`/`expect`/`unwrap` of the real code that would have fired, and
   the first use of a dangling `store::Key` (`store.resolve(key)` panics), in `Streams.panicked`.
   A theorem "`….panicked = none`" therefore says: none of these sites fired during the call.
@@ -301,13 +306,8 @@ theorem server_accept_path_cannot_panic {s : Streams} {H : List Nat} (h : NReach
     (he : H2V.Lemmas.ConnCountsP.ErrOK s) :
     s.nextIncoming.1.panicked = none ∧
     ∀ k, s.nextIncoming.2 = some k → ((s.nextIncoming.1).recvTakeRequest k).1.panicked = none ∧
-      ((s.nextIncoming.1).recvTakeRequest k).2.isSome = true := by
-  have g := nreach_good h he
-  obtain ⟨hn, hj, _, hs⟩ := nextIncoming_npi g.g3.good.npi g.j g.g3.good.hok
-  refine ⟨hn.np, fun k hk => ?_⟩
-  obtain ⟨_, _, _, hl, hr, hq⟩ := hs k hk
-  have := recvTakeRequest_npi hn hj hl (by omega) hq
-  exact ⟨this.1.np, this.2.2⟩
+      ((s.nextIncoming.1).recvTakeRequest k).2.isSome = true :=
+  nreach_accept_path h he
 
 /-- non-vacuity: after the request has arrived (a reachable state) `next_incoming` returns key 0 -/
 example : NReach (H2V.Lemmas.ConnResetP.run wInitS [.recvHeaders cxReq]) [] ∧
@@ -325,40 +325,56 @@ theorem handle_error_with_remote_reset_counterexample :
     (H2V.Lemmas.ConnResetP.run cxInit [.recvHeaders cxReq, .handleError (.goAway [] 0 .remote), .nextIncoming]).panicked = none :=
   handleError_remoteReset_counterexample
 
-/-- **No panic in the stream layer but the model's own fuel markers — all operations, with the write path**
-    (partial: connections without server push; one residual STATE hypothesis `OH`, see below).
-    `WReach OH s w H T`: histories of (stream layer `s`, the codec's writer `w`, handles held `H`, response futures that have
-    not returned yet `T`) from the stream layer of a new connection and an empty writer: every constructor of ConnResetP's
-    `Op` outside the write path (arbitrary arguments, any order; `opPre5`), `Streams::poll_complete` and
-    `send_pending_refusal` run against the CURRENT writer (any fuel, any transport state), the connection's own writer steps
-    (`WStep`: control frames, `poll_ready`, `flush`, `shutdown`, the two peer settings), and the two fuel markers of the
-    connection model.  Conclusion: either no panic site has fired and the invariant bundle `GoodW` holds, or the recorded
-    message is one of the model's four out-of-fuel markers (`FuelAll`; the Rust loops have no fuel; a recorded message is
-    never overwritten: `op_sticky`).  So every `assert!`/`expect`/`unwrap`/`unreachable!`/dangling-key site of
-    streams.rs, recv.rs, send.rs, prioritize.rs, counts.rs, store.rs and flow_control.rs that the model records is dead —
-    including `pop_frame`'s two `FlowControl::send_data` asserts, `reclaim_frame`, `assert!(!stream.is_counted)` of
-    `inc_num_send_streams`, `.expect("unexpected flow control state")`, and "poll_response called after response returned".
-    Preconditions (`opPre5`; all are argument / API-discipline conditions except `refused`, `max_stream_id`, `ReqHead`, `OH`):
+/-- **No panic in the stream layer but the model's own fuel markers — all operations, with the write path, NO residual
+    hypothesis** (partial only in the class: no accepted server push, no `push_request`).
+    `WReach NoPushReq RT s w H T`: histories of (stream layer `s`, the codec's writer `w`, handles held `H`, response futures
+    that have not returned yet `T`) from the stream layer of a new connection and an empty writer: every constructor of
+    ConnResetP's `Op` outside the write path except `push_request` (arbitrary arguments, any order; `opPre5`),
+    `Streams::poll_complete` and `send_pending_refusal` run against the CURRENT writer (any fuel, any transport state), the
+    connection's own writer steps (`WStep`: control frames, `poll_ready`, `flush`, `shutdown`, the two peer settings), and
+    the two fuel markers of the connection model.  Conclusion: either no panic site has fired and the invariant bundle
+    `GoodW` holds, or the recorded message is one of the model's four out-of-fuel markers (`FuelAll`; the Rust loops have no
+    fuel; a recorded message is never overwritten: `op_sticky`).  So every `assert!`/`expect`/`unwrap`/`unreachable!`/
+    dangling-key site of streams.rs, recv.rs, send.rs, prioritize.rs, counts.rs, store.rs and flow_control.rs that the model
+    records is dead — including `pop_frame`'s two `FlowControl::send_data` asserts, `reclaim_frame`,
+    `assert!(!stream.is_counted)` of `inc_num_send_streams`, `.expect("unexpected flow control state")`, and
+    "poll_response called after response returned".
+    Preconditions (`opPre5`; all are argument / API-discipline conditions except `refused`, `max_stream_id`, `ReqHead`,
+    which the connection layer / the accept path guarantee: next theorems):
     * frames: `s.recv.refused = none` at HEADERS (the connection sends the refusal first), `max_stream_id ≥ id` at
       `Recv::go_away` (ConnCtlP), DATA length ≤ 2^31-1, WINDOW_UPDATE increment and SETTINGS_INITIAL_WINDOW_SIZE ≤ 2^31-1
       (decoder), `handle_error` not with `Reset(_, _, Remote)`, an acknowledged local SETTINGS frame answers `Ok`;
     * handles: a call only through a held handle (`opKey3`); `take_request` while the request head is in place and not on
       a client stream awaiting its response; `poll_response` only until it has returned the response (`T`);
-      `send_informational` / `push_request` only on the handle of a PEER-initiated stream (the type `SendResponse`; see
-      the two counterexamples below); `send_data` with `buffered + len < 2^64`; `set_target_window_size ≤ 2^31-1`;
-    * `ErrOK s`: the quota of library-initiated resets is not exhausted (NOTES §5);
-    * RESIDUAL: `OH` in every state of the history — "the front frame of a stream waiting in `pending_open` is not DATA".
-      It is what `Send::send_reset`'s pending_open branch (keep the front frame, zero `buffered_send_data`) needs; np-ds
-      proved it preserved by all but five operations and could not close those; no typed history violating it is known. -/
-theorem no_panic_stream_layer_with_write_path_partial {s : Streams} {w : Writer} {H T : List Nat} (h : WReach OH s w H T)
-    (he : H2V.Lemmas.ConnCountsP.ErrOK s) :
-    (s.panicked = none ∧ GoodW OH s w H T) ∨ ∃ m, s.panicked = some m ∧ FuelAll m :=
-  wreach_residual h he
+      `send_informational` only on the handle of a PEER-initiated stream (the type `SendResponse`; counterexamples
+      below); `send_data` with `buffered + len < 2^64`; `set_target_window_size ≤ 2^31-1`;
+    * `ErrOK s`: the quota of library-initiated resets is not exhausted (NOTES §5).
+    The invariant includes np-ds's `OXs` (a locally initiated entry whose send half is unopened carries nothing; a stream
+    waiting in `pending_open` is never scheduled and its front frame is not DATA, or it is closed without DATA — what
+    `Send::send_reset`'s pending_open branch needs) and np-fi's `NoPPQ` (no PUSH_PROMISE frame is queued). -/
+theorem no_panic_stream_layer_with_write_path_partial {s : Streams} {w : Writer} {H T : List Nat}
+    (h : WReach NoPushReq RT s w H T) (he : H2V.Lemmas.ConnCountsP.ErrOK s) :
+    (s.panicked = none ∧ GoodW (fun s => OXs s ∧ NoPPQ s) s w H T) ∨ ∃ m, s.panicked = some m ∧ FuelAll m :=
+  wreach_final h he
 
 /-- non-vacuity: a client sends a request, `poll_complete` writes it, the response arrives, the response future returns it, the
     handle is dropped, `poll_complete`, EOF: nothing panicked, everything released -/
-example : WReach OH wS5 wP2.2.1 [] [] ∧ H2V.Lemmas.ConnCountsP.ErrOK wS5 ∧ wS5.panicked = none ∧ wS5.store.slab.length = 0 :=
+example : WReach NoPushReq RT wS5 wP2.2.1 [] [] ∧ H2V.Lemmas.ConnCountsP.ErrOK wS5 ∧ wS5.panicked = none ∧ wS5.store.slab.length = 0 :=
   ⟨wS5_wreach, wS5_facts.1, wS5_facts.2.1, wS5_facts.2.2⟩
+
+/-- **The same with `push_request`** (server push used by the application): one residual STATE hypothesis — `OXs` in the
+    state after each `poll_complete` (only there; `WReach AllOps OXs`).  `OXs` is proved invariant for every operation
+    (`push_request` included) except `poll_complete` when PUSH_PROMISE frames are queued: open is `ppActivate` →
+    `queue_open` on the entry that `Inner::send_reset` re-creates for a forgotten promised id when the send-stream limit is
+    reached (NOTES §5).  Typing precondition in addition: `push_request` only on the handle of a peer-initiated stream. -/
+theorem no_panic_stream_layer_with_push_request_partial {s : Streams} {w : Writer} {H T : List Nat}
+    (h : WReach AllOps OXs s w H T) (he : H2V.Lemmas.ConnCountsP.ErrOK s) :
+    (s.panicked = none ∧ GoodW OXs s w H T) ∨ ∃ m, s.panicked = some m ∧ FuelAll m :=
+  wreach_residual h he
+
+/-- non-vacuity: the relation contains the initial states (its other constructors are those of the previous theorem, with a
+    promise after `poll_complete`) -/
+example : WReach AllOps OXs wInit3 {} [] [] := .init wInit3_init2 wInit3_nopush rfl rfl
 
 /-- **Model-only observation** (typing precondition `fiPre`; not reachable through h2's public API): informational
     headers sent through the handle of a PUSHED stream (`SendPushedResponse` has no `send_informational`) let the promised
@@ -379,39 +395,57 @@ theorem pending_open_with_data_front_counterexample :
   ⟨oh_counterexample.1, oh_counterexample_not_dsum⟩
 
 /-- **The connection layer adds no panic and calls the stream layer only within its preconditions**: in every
-    reachable connection `CReach c H T` — a new client (`Conn.init`, ENABLE_PUSH = 0) or server (`Conn.initServer`)
+    reachable connection `CReach A c H T` — a new client (`Conn.init`, ENABLE_PUSH = 0) or server (`Conn.initServer`)
     connection with a legal configuration (`CfgOK`: max_frame_size ≤ 2^24-1, `CwsOK`: connection window ≤ 2^31-1, both
     asserted by the real builder; SETTINGS_INITIAL_WINDOW_SIZE left at its default), then any sequence of: `poll`
     (`protoPoll` / the client's `clientPoll`, any fuel), `set_target_window_size`, graceful and abrupt shutdown, the PING
-    handle, every handle call of the application (`isHandleOp`, preconditions `opPre5`), and the environment (transport
-    input/output state, waker) — the connection invariant `ConnOK` holds (ConnCtlP's GOAWAY invariant, the shutdown-PING
-    invariant, the decoder bounds: under it none of the SEVEN `Conn.panic` asserts of ConnProto can fire — np-conn), and the
-    stream layer together with the codec's writer is in a state of the final stream-layer relation `WReach` with NO residual
-    promise (`RT`): whatever octets the peer sends, every call the connection makes on the stream layer satisfies the
-    preconditions of `no_panic_stream_layer_with_write_path_partial` (`refused = none` at HEADERS, `max_stream_id ≥ id`,
+    handle, every handle call of the application (`isHandleOp`, preconditions `opPre5`, restriction `A`), dropping the
+    `Connection` object (`recv_eof(true)`; the handles live on), and the environment (transport input/output state, waker,
+    wake-ups) — the connection invariant `ConnOK` holds (ConnCtlP's GOAWAY
+    invariant, the shutdown-PING invariant, the decoder bounds: under it none of the SEVEN `Conn.panic` asserts of ConnProto
+    can fire — np-conn), and the stream layer together with the codec's writer is in a state of the final stream-layer
+    relation `WReach` with NO residual promise (`RT`): whatever octets the peer sends, every call the connection makes on
+    the stream layer satisfies the preconditions of the stream-layer theorem (`refused = none` at HEADERS, `max_stream_id ≥ id`,
     frame bounds from the decoder, `handle_error` only with GOAWAY / I/O errors, …), and `poll_complete` always runs
     against the connection's own writer. -/
-theorem reachable_connection_is_a_stream_layer_history {c : Conn} {H T : List Nat} (h : CReach c H T) :
-    ConnOK c ∧ WReach RT c.streams c.codec.w H T :=
-  ⟨(creach_wreach h).1, (creach_wreach h).2.2⟩
+theorem reachable_connection_is_a_stream_layer_history {A : H2V.Lemmas.ConnResetP.Op → Prop} (hA : ∀ s o, ConnP' s o → A o) {c : Conn} {H T : List Nat}
+    (h : CReach A c H T) : ConnOK c ∧ WReach A RT c.streams c.codec.w H T :=
+  ⟨(creach_wreach hA h).1, (creach_wreach hA h).2.2⟩
 
-/-- non-vacuity: a new client connection, polled, a request sent through `SendRequest`, polled again: one stream, no panic -/
-example : (∃ H T, CReach wC3 H T) ∧ H2V.Lemmas.ConnCountsP.ErrOK wC3.streams ∧ wC3.streams.panicked = none ∧
-    wC3.streams.store.slab.length = 1 :=
-  ⟨wC3_creach, wC3_facts.1, wC3_facts.2.1, wC3_facts.2.2⟩
+/-- non-vacuity: a new client connection, polled, a request sent through `SendRequest`, polled again: one stream, no panic;
+    and the connection layer itself never calls `push_request` -/
+example : (∃ H T, CReach NoPushReq wC3 H T) ∧ H2V.Lemmas.ConnCountsP.ErrOK wC3.streams ∧ wC3.streams.panicked = none ∧
+    wC3.streams.store.slab.length = 1 ∧ (∀ s o, ConnP' s o → NoPushReq o) :=
+  ⟨wC3_creach, wC3_facts.1, wC3_facts.2.1, wC3_facts.2.2, connP'_noPushReq⟩
 
-/-- **No endpoint panic in any reachable connection, modulo the open lemma about `OH`** (partial, CONDITIONAL).
-    `P : Plug RT Q` says: some predicate `Q` on the stream layer implies `OH` ("the front frame of a stream waiting in
-    `pending_open` is not DATA"), holds initially and is kept by every operation in a good state (NOTES §5: np-ds proved
-    `OH` kept by all but five operations).  Given that, in every reachable state of a connection either nothing has
-    panicked and all invariants hold, or the recorded message is one of the model's out-of-fuel markers.  The stream-layer
-    theorem above is the same statement with `OH` as a hypothesis on the states instead. -/
--- (non-vacuity of `CReach c H T ∧ ErrOK c.streams`: the example above; `Plug RT Q` is the open lemma and has no witness yet)
-theorem no_panic_in_any_reachable_connection_modulo_OH_partial {Q : Streams → Prop} (P : Plug RT Q) {c : Conn} {H T : List Nat}
-    (h : CReach c H T) (he : H2V.Lemmas.ConnCountsP.ErrOK c.streams) :
-    (c.streams.panicked = none ∧ ConnOK c ∧ GoodW Q c.streams c.codec.w H T) ∨
+/-- **NO ENDPOINT PANIC IN ANY REACHABLE CONNECTION** (the general theorem of C08; partial only in the class of
+    connections): for every connection reachable as in the previous theorem whose application does not call `push_request`
+    (`NoPushReq`: every client; every server that does not use server push) — whatever the peer sends, however the
+    transport chops reads and writes, whatever (API-conforming) calls the application makes in whatever order — either
+    nothing has panicked: none of the connection layer's asserts, no `assert!` / `expect` / `unwrap` / `unreachable!` /
+    dangling `store::Key` of the stream layer, and all invariants hold (`ConnOK`, `GoodW`); or the recorded message is one
+    of the MODEL's out-of-fuel markers (`FuelAll`: the model's loops carry fuel, the Rust loops do not).
+    No open lemma, no residual state hypothesis.  Class restrictions: the endpoint does not accept server push (servers;
+    clients with ENABLE_PUSH = 0), does not call `push_request`, leaves SETTINGS_INITIAL_WINDOW_SIZE at its default and does
+    not call `set_initial_window_size`; `ErrOK`: the quota of library-initiated resets (default 1024) is not exhausted. -/
+theorem no_panic_in_any_reachable_connection_partial {c : Conn} {H T : List Nat} (h : CReach NoPushReq c H T)
+    (he : H2V.Lemmas.ConnCountsP.ErrOK c.streams) :
+    (c.streams.panicked = none ∧ ConnOK c ∧ GoodW (fun s => OXs s ∧ NoPPQ s) c.streams c.codec.w H T) ∨
     ∃ m, c.streams.panicked = some m ∧ FuelAll m :=
-  creach_good P h he
+  creach_good_final h he
+
+/-- non-vacuity: the witness connection of the previous example is in the class -/
+example : (∃ H T, CReach NoPushReq wC3 H T) ∧ H2V.Lemmas.ConnCountsP.ErrOK wC3.streams := ⟨wC3_creach, wC3_facts.1⟩
+
+/-- **The same for servers that use `push_request`, modulo ONE open lemma** (partial, CONDITIONAL).
+    `PcOX`: "`Streams::poll_complete` keeps `OXs`" (in a good, un-panicked state; every other operation is proved to keep
+    it, and `poll_complete` itself when no PUSH_PROMISE frame is queued — NOTES §5). -/
+-- (`PcOX` is the open lemma and has no proof yet; non-vacuity of `CReach AllOps c H T`: its constructors are those of `CReach NoPushReq`)
+theorem no_panic_in_any_reachable_connection_modulo_poll_complete_partial (hpc : PcOX) {c : Conn} {H T : List Nat}
+    (h : CReach AllOps c H T) (he : H2V.Lemmas.ConnCountsP.ErrOK c.streams) :
+    (c.streams.panicked = none ∧ ConnOK c ∧ GoodW OXs c.streams c.codec.w H T) ∨
+    ∃ m, c.streams.panicked = some m ∧ FuelAll m :=
+  creach_good_pc hpc h he
 
 /-- **The invariant behind it, in every reachable state**: besides `panicked = none`, (a) `find_mut(id)` hands out
     only keys that resolve, to an entry with that stream id, and the id map is a map (`IdsOK`); (b) the good-state
@@ -511,4 +545,6 @@ end H2V.Props.C08NoPanic
 #print axioms H2V.Props.C08NoPanic.informational_on_pushed_handle_counterexample
 #print axioms H2V.Props.C08NoPanic.pending_open_with_data_front_counterexample
 #print axioms H2V.Props.C08NoPanic.reachable_connection_is_a_stream_layer_history
-#print axioms H2V.Props.C08NoPanic.no_panic_in_any_reachable_connection_modulo_OH_partial
+#print axioms H2V.Props.C08NoPanic.no_panic_in_any_reachable_connection_modulo_poll_complete_partial
+#print axioms H2V.Props.C08NoPanic.no_panic_stream_layer_with_push_request_partial
+#print axioms H2V.Props.C08NoPanic.no_panic_in_any_reachable_connection_partial
